@@ -65,14 +65,15 @@ def datenum(t):
 
 
 class Judge(object):
-    def __init__(self, ctx, case, diagram, argv):
+    def __init__(self, ctx, case, diagram, argv, pid="C16"):
+        self.pid = pid
         self.ctx = ctx
         self.case = case
         self.diagram = diagram
         self.argv = argv
 
     def fail(self, series, msg):
-        self.ctx.fail("C16/%s/%s" % (self.diagram, series), self.case, "argv: %s: %s" % (" ".join(map(str, self.argv)), msg))
+        self.ctx.fail("%s/%s/%s" % (self.pid, self.diagram, series), self.case, "argv: %s: %s" % (" ".join(map(str, self.argv)), msg))
 
     def series(self, ax, label, ex, ey, name="curve", tol=TOL, sort=False, allow_extra_nan=False):
         """Exactly one line labelled `label` whose points equal (ex, ey)."""
@@ -1294,7 +1295,7 @@ def strategy(tier):
     return s()
 
 
-def check_diagram(case, ctx):
+def check_diagram(case, ctx, pid="C16"):
     from .. import drive, figdump, mat
     name = case["diagram"]
     info = DIAGRAMS[name]
@@ -1316,9 +1317,9 @@ def check_diagram(case, ctx):
     r = drive.run(paths + dargs)
     ctx.evals += 1
     ctx.label("diagram=" + name)
-    J = Judge(ctx, case, name, argv)
+    J = Judge(ctx, case, name, argv, pid)
     if r.exc is not None:
-        ctx.fail("C16/%s/exception/%s" % (name, r.exc_key), case, "argv: %s\n%s" % (" ".join(map(str, argv)), r.tb[-700:]))
+        ctx.fail("%s/%s/exception/%s" % (pid, name, r.exc_key), case, "argv: %s\n%s" % (" ".join(map(str, argv)), r.tb[-700:]))
         return
     if r.exit not in (None, 0):
         ctx.label("error-exit/" + name)
